@@ -16,7 +16,7 @@ from typing import Optional
 import xonsh.codecache as C
 from xonsh.built_ins import XSH
 
-from vf.api import Obligation, Skip, concretely, viol
+from vf.api import Obligation, Skip, concretely, gappy, viol
 
 STUBS = [
     "os.stat / os.path.isfile / os.makedirs / open / is_writable_file as seen from xonsh.codecache -> in-memory files with explicit mtimes; "
@@ -81,7 +81,7 @@ def _install(fs):
         realpath = staticmethod(lambda p: p)
 
     class O:
-        path = P
+        path = gappy(P, "os_path")
 
         @staticmethod
         def stat(p):
@@ -101,7 +101,7 @@ def _install(fs):
         data = fs.files[path][0]
         return io.BytesIO(data) if "b" in mode else io.StringIO(data.decode())
 
-    C.os = O
+    C.os = gappy(O, "os")
     C.open = _open
     C.is_writable_file = lambda p: True
     C.print_warning = lambda *a, **k: None
